@@ -22,9 +22,9 @@ func init() {
 		Level: "fault_enumeration",
 		Rule: "seeded histories (<=14 ops) of consecutive accepts, accepts after a height gap (state sync), historical saves of older blocks, restarts with the same or another window, windows 0/1/2/3/5, on the real ChainIndex over a crash-injecting database; for every history the number W of durable writes is counted in a fault-free run and the history is then re-run W more times, crashing before write k (k=1..W, exhaustive for that history), restarting and finishing the history; after every operation all queries are compared with a window model; " +
 			"non-trivial = the history contains a gap, a historical save or a restart; distinct = distinct (history, crash point) hashes",
-		Exec: c19,
-		Real: []string{"chainindex.ChainIndex (UpdateLastAccepted, SaveHistorical, cleanupOnStartup, lookups)"},
-		Stub: []string{"disk: crash-injecting database.Database over avalanchego memdb (every write of the real stores is a synchronous atomic batch, so durable state = prefix of completed writes)", "blocks (id/height/bytes records)"},
+		Exec:        c19,
+		Real:        []string{"chainindex.ChainIndex (UpdateLastAccepted, SaveHistorical, cleanupOnStartup, lookups)"},
+		Stub:        []string{"disk: crash-injecting database.Database over avalanchego memdb (every write of the real stores is a synchronous atomic batch, so durable state = prefix of completed writes)", "blocks (id/height/bytes records)"},
 		Assumptions: []string{"pebble's own crash recovery is trusted (writes are issued with pebble.Sync); the crash model is at the granularity of the wrapper's write operations"},
 	})
 }
@@ -216,7 +216,7 @@ func c19(r *simk.Run) *simk.Violation {
 	}
 	interesting := false
 	stored := map[uint64]bool{}
-	for len(ops) < nOps {
+	for tries := 0; len(ops) < nOps && tries < 300; tries++ {
 		switch c.Weighted(8, 2, 2, 2) {
 		case 0:
 			ops = append(ops, c19Op{Kind: "accept", Height: next})
